@@ -16,8 +16,8 @@
       in_domain l delim sc op pfx scope and op are identifiers without '.'; prefix and delimiter contain no
                                   quote of the language's literal, backslash or control character; and, only
                                   when the prefix has variables: no '%' (Go, Java, Dart), no other brace token
-                                  (Python); Go: no '%' in the delimiter; Dart: no '$', and a variable is not
-                                  followed by an identifier character.
+                                  (Python); Go: no '%' in the delimiter; Dart: no '$' (a variable followed by an
+                                  identifier character is in the domain since the Dart generator emits ${name} there).
     Runtime values [vals] are arbitrary byte strings. *)
 From Coq Require Import ZArith List Bool String.
 From FV Require Import Model.Topic Proofs.TopicProofs.
@@ -99,22 +99,46 @@ Theorem c08_python_case_differs_refuted :
 Proof. exact pinned_python_case_differs. Qed.
 Print Assumptions c08_python_case_differs_refuted.
 
-(** repaired tree, known finding C08-dart-delim-after-variable: with -delim _ and a prefix ending
-    in a variable the Dart statements do not compile ('foo.$user_' names an undefined user_)
-    while Go (and Java, Python) use the specified topic *)
-Theorem c08_dart_delim_after_variable_refuted :
+(** was known finding C08-dart-delim-after-variable, repaired: with -delim _ and a prefix ending in
+    a variable (outside [dart_follow]) the Dart statements read 'foo.${user}_' and Dart uses the
+    specified topic, like Go (and Java, Python); the general statement is c08_matches_spec, whose
+    domain for Dart no longer excludes these inputs *)
+Theorem c08_dart_delim_after_variable :
   exists delim sc op pfx vals,
     in_domain Go delim sc op pfx = true /\ in_domain Java delim sc op pfx = true /\
-    in_domain Py delim sc op pfx = true /\
+    in_domain Py delim sc op pfx = true /\ in_domain Dart delim sc op pfx = true /\
+    dart_follow (segments pfx) delim = false /\
     vars_safe Dart Pub op (vars_of (segments pfx)) = true /\
     topic fixed Go Pub delim sc op pfx vals = Some (spec_topic delim sc op pfx vals) /\
-    topic fixed Dart Pub delim sc op pfx vals = None /\
-    topic fixed Dart Sub delim sc op pfx vals = None.
-Proof. exact dart_delim_after_variable. Qed.
-Print Assumptions c08_dart_delim_after_variable_refuted.
+    topic fixed Dart Pub delim sc op pfx vals = Some (spec_topic delim sc op pfx vals) /\
+    topic fixed Dart Sub delim sc op pfx vals = Some (spec_topic delim sc op pfx vals).
+Proof. exact dart_delim_after_variable_ok. Qed.
+Print Assumptions c08_dart_delim_after_variable.
+
+(** the prefix statement as the generator emitted it before the repair ([dart_prefix_raw_pinned]):
+    'foo.$user_', which has no value when user is bound and user_ is not; the repaired one,
+    'foo.${user}_', evaluates to foo.<user>_ *)
+Theorem c08_dart_delim_after_variable_pinned_refuted :
+  exists delim pfx praw v,
+    dart_prefix_raw_pinned delim pfx (segments pfx) = Some praw /\
+    praw = lit "foo.$user_" /\
+    dart_run praw DN [(lit "user", v)] = None /\
+    dart_prefix_raw delim pfx (segments pfx) = Some (lit "foo.${user}_") /\
+    dart_run (lit "foo.${user}_") DN [(lit "user", v)] = Some (lit "foo." ++ v ++ lit "_").
+Proof. exact dart_delim_after_variable_pinned. Qed.
+Print Assumptions c08_dart_delim_after_variable_pinned_refuted.
+
+(** the repair changes nothing where no variable is followed by an identifier character: the
+    emitted prefix statement is the one emitted before (this is why the golden files of the
+    compiler tests, generated with the delimiter '.', are unchanged) *)
+Theorem c08_dart_prefix_unchanged_on_old_domain : forall delim pfx,
+  dart_follow (segments pfx) delim = true ->
+  dart_prefix_raw delim pfx (segments pfx) = dart_prefix_raw_pinned delim pfx (segments pfx).
+Proof. exact dart_prefix_raw_unchanged. Qed.
+Print Assumptions c08_dart_prefix_unchanged_on_old_domain.
 
 (** the side conditions are not an artefact: what each template does with its metacharacters
-    ('%' under fmt.Sprintf / String.format, '$' and identifier-continuing delimiters in Dart,
+    ('%' under fmt.Sprintf / String.format, '$' in Dart (an identifier-continuing delimiter is handled),
     foreign brace tokens under str.format, a variable called op) *)
 Theorem c08_metachar_witnesses :
   topic fixed Go Pub (lit ".") (lit "Events") (lit "created") (lit "100%%.{user}") [lit "bob"]
@@ -126,7 +150,8 @@ Theorem c08_metachar_witnesses :
   /\ topic fixed Go Pub (lit ".") (lit "Events") (lit "created") (lit "100%.{user}") [lit "bob"] = None
   /\ topic fixed Dart Pub (lit ".") (lit "Events") (lit "created") (lit "a$user.{user}") [lit "bob"]
     = Some (lit "abob.bob.Events.created")
-  /\ topic fixed Dart Pub (lit "_") (lit "Events") (lit "created") (lit "foo.{user}") [lit "bob"] = None
+  /\ topic fixed Dart Pub (lit "_") (lit "Events") (lit "created") (lit "foo.{user}") [lit "bob"]
+    = Some (lit "foo.bob_Events_created")
   /\ topic fixed Go Pub (lit "_") (lit "Events") (lit "created") (lit "foo.{user}") [lit "bob"]
     = Some (lit "foo.bob_Events_created")
   /\ topic fixed Py Pub (lit ".") (lit "Events") (lit "created") (lit "{a-b}.{user}") [lit "bob"] = None
